@@ -5,6 +5,7 @@ open SSVerif.S3file
 #print axioms C17_plan_decides
 #print axioms C17_header_in_bounds
 #print axioms C17_mdef_decides
+#print axioms C17_mdef_tables_aligned
 #print axioms C17_assembly_decides
 #print axioms C17_acmod_load_in_bounds
 #print axioms Ledger.C17_reject_leaves_clean
